@@ -304,3 +304,68 @@ Proof.
   unfold release_stage. intros H. destruct (release_loop_bounds relq u validf _ _ _ _ _ H) as [_ [B [C D]]].
   split; [apply C; lia|]. split; [lia|]. destruct r as [[rs s]|]; [exact D|lia].
 Qed.
+
+(* ------------------------------------------------------------ requests of the release stage (C12) *)
+Lemma release_log_length relq u validf : forall tries i skel,
+  i + List.length (release_log tries i relq u validf skel) = fst (release_loop tries i relq u validf skel).
+Proof.
+  induction tries as [|t IH]; intros i skel; cbn [release_log release_loop]; [cbn; lia|].
+  destruct (run_stage false relq (u i) skel) as [rs s1].
+  destruct (validf (drop_unobtained relq rs s1)); [cbn; lia|].
+  destruct t as [|t']; [cbn; lia|].
+  specialize (IH (S i) (drop_unobtained relq rs s1)). cbn [List.length]. lia.
+Qed.
+
+Definition round_bounded (u : upstream) (rs : list file_result) : Prop :=
+  forall r p k, In r rs -> In (p, k) (requests_of r) -> k <= max_tries + retries_upto (script_of u p) max_tries.
+
+Lemma stage_requests_bounded u files fs : round_bounded u (fst (run_stage false files u fs)).
+Proof.
+  pose proof (stage_results_pointwise false u
+                (fun _ r => forall p k, In (p, k) (requests_of r) ->
+                            k <= max_tries + retries_upto (script_of u p) max_tries)) as H.
+  assert (HP : forall f fs0 p k, In (p, k) (requests_of (process_file false f u fs0 false)) ->
+                                 k <= max_tries + retries_upto (script_of u p) max_tries).
+  { intros f fs0 p k. unfold process_file. destruct (precheck f fs0); [intros []|].
+    cbn [requests_of]. apply requests_bounded_lemma. }
+  specialize (H HP files fs). pose proof (run_stage_length false u files fs) as Hlen.
+  destruct (run_stage false files u fs) as [rs fs']. cbn [fst] in *.
+  intros r p k Hr Hpk.
+  assert (exists f, In (f, r) (combine files rs)) as [f Hin].
+  { clear - Hr Hlen. revert files Hlen. induction rs as [|x rs IH]; intros files Hlen; [destruct Hr|].
+    destruct files as [|f files]; [discriminate|]. cbn [List.length] in Hlen. injection Hlen as Hlen.
+    destruct Hr as [<-|Hr]; [exists f; left; reflexivity|].
+    destruct (IH Hr files Hlen) as [g Hg]. exists g. right. exact Hg. }
+  exact (H f r Hin p k Hpk).
+Qed.
+
+Lemma release_log_bounded relq u validf : forall tries i skel j rs,
+  nth_error (release_log tries i relq u validf skel) j = Some rs -> round_bounded (u (i + j)) rs.
+Proof.
+  induction tries as [|t IH]; intros i skel j rs H; cbn [release_log] in H; [destruct j; discriminate|].
+  pose proof (stage_requests_bounded (u i) relq skel) as Hb.
+  destruct (run_stage false relq (u i) skel) as [rs0 s1]. cbn [fst] in Hb.
+  assert (Hhead : forall l, nth_error (rs0 :: l) j = Some rs -> j = 0 -> round_bounded (u (i + j)) rs).
+  { intros l Hn ->. cbn in Hn. injection Hn as <-. rewrite Nat.add_0_r. exact Hb. }
+  destruct (validf (drop_unobtained relq rs0 s1)).
+  - destruct j as [|j]; [exact (Hhead [] H eq_refl)|destruct j; discriminate].
+  - destruct t as [|t'].
+    + destruct j as [|j]; [exact (Hhead [] H eq_refl)|destruct j; discriminate].
+    + destruct j as [|j]; [exact (Hhead _ H eq_refl)|]. cbn [nth_error] in H.
+      replace (i + S j) with (S i + j) by lia. exact (IH (S i) _ j rs H).
+Qed.
+
+(* the release stage as a whole: at most max(1, retries) rounds, and in every round every URL is requested at
+   most ten times (plus the transport-level reconnects that do not count) *)
+Lemma release_stage_requests retries relq u validf skel :
+  let log := release_log (Nat.max 1 retries) 0 relq u validf skel in
+  List.length log = fst (release_stage retries relq u validf skel) /\
+  List.length log <= Nat.max 1 retries /\
+  forall j rs, nth_error log j = Some rs -> round_bounded (u j) rs.
+Proof.
+  cbn zeta. pose proof (release_log_length relq u validf (Nat.max 1 retries) 0 skel) as HL. cbn [Nat.add] in HL.
+  split; [exact HL|]. split.
+  - unfold release_stage in HL. destruct (release_loop (Nat.max 1 retries) 0 relq u validf skel) as [k r] eqn:E.
+    cbn [fst] in HL. destruct (release_loop_bounds relq u validf _ _ _ _ _ E) as [_ [B _]]. lia.
+  - intros j rs H. exact (release_log_bounded relq u validf _ 0 skel j rs H).
+Qed.
